@@ -326,6 +326,19 @@ func (dsc *dataStoreCommand) setDirty() {
 	dsc.ds.data.dirty = true
 }
 
+// records that the value or deadline of a key was changed in place: the store
+// needs saving, and the key's object gets a new id so that a connection that
+// WATCHes the key sees the change
+func (dsc *dataStoreCommand) keyModifiedUnlocked(keyName string) {
+	dsc.setDirty()
+	if val, exists := dsc.ds.data.get(keyName); exists {
+		if sk, isSk := val.(*storeKey); isSk {
+			dsc.ds.dataObjectNumber++
+			sk.id = dsc.ds.dataObjectNumber
+		}
+	}
+}
+
 func (dsc *dataStoreCommand) getKeyObject(keyName string) (sk *storeKey, exists bool) {
 	dsc.lock()
 	defer dsc.unlock()
@@ -406,6 +419,7 @@ func (dsc *dataStoreCommand) getKeySetExpiration(keyName string, expiration time
 		if strBytes != nil {
 			val = string(strBytes)
 			sk.expiresAt = expiration
+			dsc.keyModifiedUnlocked(keyName)
 		} else {
 			exists = VALUE_WRONG_TYPE
 		}
@@ -818,6 +832,7 @@ func (dsc *dataStoreCommand) del(keyNames []string, reclaim bool) (output respVa
 				dsc.ds.data.remove(keyName)
 			} else {
 				sk.expiresAt = minTime
+				dsc.setDirty()
 			}
 		} else if reclaim {
 			// remove expired now (if it exists)
@@ -969,6 +984,7 @@ func (dsc *dataStoreCommand) expire(keyName string, expiration time.Time, nx, xx
 	}
 
 	sk.expiresAt = expiration
+	dsc.keyModifiedUnlocked(keyName)
 	output.data = respInt(1)
 	return
 }
@@ -1183,7 +1199,7 @@ func (dsc *dataStoreCommand) lpushUnlocked(keyName string, list *storeList, elem
 	}
 	list.head = &item
 	list.count++
-	dsc.setDirty()
+	dsc.keyModifiedUnlocked(keyName)
 }
 
 func (dsc *dataStoreCommand) lpush(keyName string, values [][]byte) (output respValue) {
@@ -1252,7 +1268,7 @@ func (dsc *dataStoreCommand) lpopUnlocked(keyName string, list *storeList, item 
 		dsc.ds.data.remove(keyName)
 	}
 
-	dsc.setDirty()
+	dsc.keyModifiedUnlocked(keyName)
 }
 
 func (dsc *dataStoreCommand) lpop(keyName string, count int) (values [][]byte, err *respErrorString) {
@@ -1294,7 +1310,7 @@ func (dsc *dataStoreCommand) rpushUnlocked(keyName string, list *storeList, elem
 	}
 	list.tail = &item
 	list.count++
-	dsc.setDirty()
+	dsc.keyModifiedUnlocked(keyName)
 }
 
 func (dsc *dataStoreCommand) rpush(keyName string, values [][]byte) (output respValue) {
@@ -1363,7 +1379,7 @@ func (dsc *dataStoreCommand) rpopUnlocked(keyName string, list *storeList, item 
 		dsc.ds.data.remove(keyName)
 	}
 
-	dsc.setDirty()
+	dsc.keyModifiedUnlocked(keyName)
 }
 
 func (dsc *dataStoreCommand) rpop(keyName string, count int) (values [][]byte, err *respErrorString) {
@@ -1503,6 +1519,7 @@ func (dsc *dataStoreCommand) linsert(keyName string, before bool, pivot, element
 	} else {
 		dsc.linsertAfterUnlocked(list, pivotItem, []byte(element))
 	}
+	dsc.keyModifiedUnlocked(keyName)
 
 	output.data = respInt(list.count)
 	return
@@ -1759,7 +1776,7 @@ func (dsc *dataStoreCommand) removeUnlocked(keyName string, list *storeList, ite
 	item.next = nil
 	item.prev = nil
 
-	dsc.setDirty()
+	dsc.keyModifiedUnlocked(keyName)
 }
 
 func (dsc *dataStoreCommand) lremove(keyName string, element string, count int) (removed int, err *respErrorString) {
@@ -1860,6 +1877,7 @@ func (dsc *dataStoreCommand) lset(keyName string, element string, count int) (ou
 	}
 
 	item.element = []byte(element)
+	dsc.keyModifiedUnlocked(keyName)
 	output.data = rstrOK
 	return
 }
@@ -2024,7 +2042,7 @@ func (dsc *dataStoreCommand) setHashTableWorker(keyName string, fieldNames, valu
 			added++
 		}
 		m.store(fieldName, values[idx])
-		dsc.setDirty()
+		dsc.keyModifiedUnlocked(keyName)
 	}
 	return
 }
@@ -2049,7 +2067,7 @@ func (dsc *dataStoreCommand) deleteHashTableFields(keyName string, fieldNames []
 		for _, fieldName := range fieldNames {
 			if m.remove(fieldName) {
 				removed++
-				dsc.setDirty()
+				dsc.keyModifiedUnlocked(keyName)
 
 				if m.count == 0 {
 					dsc.ds.data.remove(keyName)
@@ -2106,7 +2124,7 @@ func (dsc *dataStoreCommand) fieldAddInt(keyName, fieldName string, delta int64)
 		ve = VALUE_DOESNT_EXIST
 	}
 	m.store(fieldName, fmt.Sprintf("%d", value))
-	dsc.setDirty()
+	dsc.keyModifiedUnlocked(keyName)
 
 	return
 }
@@ -2154,7 +2172,7 @@ func (dsc *dataStoreCommand) fieldAddFloat(keyName, fieldName string, delta floa
 			ve = VALUE_OVERFLOW
 			return
 		}
-		dsc.setDirty()
+		dsc.keyModifiedUnlocked(keyName)
 		ve = VALUE_EXISTS
 	} else {
 		ve = VALUE_DOESNT_EXIST
@@ -2440,11 +2458,12 @@ func (dsc *dataStoreCommand) setAddWorkerUnlocked(keyName string, memberNames []
 			if flagHasOne(options, SET_NOT_EXIST) {
 				continue
 			}
-		} else {
-			added++
+			// already a member: nothing changes
+			continue
 		}
+		added++
 		m.store(memberName, struct{}{})
-		dsc.setDirty()
+		dsc.keyModifiedUnlocked(keyName)
 	}
 	return
 }
@@ -2469,7 +2488,7 @@ func (dsc *dataStoreCommand) deleteSetMembers(keyName string, memberNames []stri
 		for _, memberName := range memberNames {
 			if m.remove(memberName) {
 				removed++
-				dsc.setDirty()
+				dsc.keyModifiedUnlocked(keyName)
 
 				if m.count == 0 {
 					dsc.ds.data.remove(keyName)
@@ -2945,7 +2964,7 @@ func (dsc *dataStoreCommand) setMove(source, destination, memberName string) (ou
 	}
 
 	ss.remove(memberName)
-	dsc.setDirty()
+	dsc.keyModifiedUnlocked(source)
 	if ss.count == 0 {
 		// a set never exists empty
 		dsc.ds.data.remove(source)
@@ -2980,7 +2999,7 @@ func (dsc *dataStoreCommand) setRemove(keyName string, members []string) (output
 	}
 
 	if removals > 0 {
-		dsc.setDirty()
+		dsc.keyModifiedUnlocked(keyName)
 		if m.count == 0 {
 			// a set never exists empty
 			dsc.ds.data.remove(keyName)
